@@ -462,18 +462,19 @@ class HintSane(object, metaclass=_HintSaneMetaclass):
                 is_hint_parent_pep484585_subclass,
                 typearg_to_hint,
             ))
-        # If this hint is unhashable (e.g., "list[[]]", subscripted by an
-        # unhashable and thus invalid child hint), fall back to hashing the
-        # identifier of this hint instead. Doing so defers to the subsequent
-        # validation of this hint, which then raises a human-readable beartype
-        # exception rather than a non-human-readable builtin "TypeError" here.
+        # If this hint or a hint mapped to by this type parameter lookup table is
+        # unhashable (e.g., "list[[]]", subscripted by an unhashable and thus
+        # invalid child hint), fall back to hashing their identifiers instead.
+        # Doing so defers to the subsequent validation of this hint, which then
+        # raises a human-readable beartype exception rather than a
+        # non-human-readable builtin "TypeError" here.
         except TypeError:
             self._hash = hash((
                 id(hint),
                 hint_recursable_to_depth,
                 is_check_expr_cacheable,
                 is_hint_parent_pep484585_subclass,
-                typearg_to_hint,
+                id(typearg_to_hint),
             ))
 
     # ..................{ DUNDERS                            }..................
